@@ -253,7 +253,7 @@ fn batch_consistent(idx: &[usize]) {
         k += 1;
     }
     let assembled = BatchMerkleProof::<HM>::from_single_proofs(&singles, idx);
-    vcheck!("C18.batch.from_single_proofs_equal", assembled == bp);
+    vcheck!("C18.batch.from_single_proofs_equal", assembled.depth == bp.depth && assembled.nodes == bp.nodes);
     // and expands back into exactly the single openings
     let openings = bp.into_openings(&bl, idx).unwrap();
     k = 0;
